@@ -781,7 +781,25 @@ def _handle_event_matching(
             and event.arguments["flow_id"] == flow_state.flow_id
             and head.position == 0
         ):
-            _start_flow(state, flow_state, event.arguments)
+            try:
+                _start_flow(state, flow_state, event.arguments)
+            except Exception as e:
+                # A flow that cannot be started with the given arguments fails (like a flow
+                # with any other runtime error)
+                log.warning(
+                    "Flow '%s' failed to start due to Colang runtime exception: %s",
+                    flow_state.flow_id,
+                    e,
+                    exc_info=True,
+                )
+                _push_internal_event(
+                    state,
+                    Event(
+                        name="ColangError",
+                        arguments={"type": str(type(e).__name__), "error": str(e)},
+                    ),
+                )
+                _abort_flow(state, flow_state, head.matching_scores)
         elif event.name == InternalEvents.FLOW_STARTED:
             # Add started flow to active scopes
             # TODO: Make this independent from matching to FlowStarted event since otherwise it could be added elsewhere
